@@ -755,6 +755,16 @@ type DijkstraTransactionBody struct {
 	TxBalanceIntervals      *DijkstraRawCbor                              `cbor:"26,keyasint,omitempty"`
 }
 
+// MarshalCBOR returns the stored CBOR of a decoded DijkstraTransactionBody so that
+// re-serialising it reproduces the wire bytes; an object built in memory is
+// encoded from its fields
+func (x *DijkstraTransactionBody) MarshalCBOR() ([]byte, error) {
+	if x.Cbor() != nil {
+		return x.Cbor(), nil
+	}
+	return cbor.EncodeGeneric(x)
+}
+
 func (b *DijkstraTransactionBody) UnmarshalCBOR(cborData []byte) error {
 	type tDijkstraTransactionBody DijkstraTransactionBody
 	var tmp tDijkstraTransactionBody
@@ -993,6 +1003,16 @@ type DijkstraSubTransactionBody struct {
 	TxAccountBalanceIntervals *DijkstraRawCbor                              `cbor:"26,keyasint,omitempty"`
 }
 
+// MarshalCBOR returns the stored CBOR of a decoded DijkstraSubTransactionBody so that
+// re-serialising it reproduces the wire bytes; an object built in memory is
+// encoded from its fields
+func (x *DijkstraSubTransactionBody) MarshalCBOR() ([]byte, error) {
+	if x.Cbor() != nil {
+		return x.Cbor(), nil
+	}
+	return cbor.EncodeGeneric(x)
+}
+
 func (b *DijkstraSubTransactionBody) UnmarshalCBOR(cborData []byte) error {
 	type tDijkstraSubTransactionBody DijkstraSubTransactionBody
 	var tmp tDijkstraSubTransactionBody
@@ -1158,6 +1178,16 @@ type DijkstraTransactionWitnessSet struct {
 	WsPlutusV2Scripts  cbor.SetType[common.PlutusV2Script]   `cbor:"6,keyasint,omitempty,omitzero"`
 	WsPlutusV3Scripts  cbor.SetType[common.PlutusV3Script]   `cbor:"7,keyasint,omitempty,omitzero"`
 	WsPlutusV4Scripts  cbor.SetType[common.PlutusV4Script]   `cbor:"8,keyasint,omitempty,omitzero"`
+}
+
+// MarshalCBOR returns the stored CBOR of a decoded DijkstraTransactionWitnessSet so that
+// re-serialising it reproduces the wire bytes; an object built in memory is
+// encoded from its fields
+func (x *DijkstraTransactionWitnessSet) MarshalCBOR() ([]byte, error) {
+	if x.Cbor() != nil {
+		return x.Cbor(), nil
+	}
+	return cbor.EncodeGeneric(x)
 }
 
 func (w *DijkstraTransactionWitnessSet) UnmarshalCBOR(cborData []byte) error {
